@@ -1325,12 +1325,14 @@ func (v *sxView) flagNorm(paths []*Path) []*Path {
 			continue
 		}
 		ok := true
+		// stable: every continuing iteration leaves the variable at its initial value, so that is its value when the loop is exhausted
+		stable := map[types.Object]bool{}
 		for o := range mentioned {
 			init, has := l.Init[o]
 			if !has {
-				ok = false
-				break
+				continue
 			}
+			st := true
 			for _, ip := range l.Iter {
 				if ip.End != "fall" && ip.End != "continue" {
 					continue
@@ -1340,12 +1342,10 @@ func (v *sxView) flagNorm(paths []*Path) []*Path {
 					continue
 				}
 				if !sameTerm(simplify(ev), simplify(init)) {
-					ok = false
+					st = false
 				}
 			}
-		}
-		if !ok {
-			continue
+			stable[o] = st
 		}
 		// the exits: exhaustion (nil) and every breaking iteration
 		exits := []*Path{nil}
@@ -1366,12 +1366,14 @@ func (v *sxView) flagNorm(paths []*Path) []*Path {
 					return nil, false
 				}
 				if ex != nil {
-					ev := exitVal(l, ex, lv.Obj)
-					if x, same := ev.(TLoop); !same || x.ID != l.ID || x.Obj != lv.Obj {
-						return ev, true
-					}
+					// left by break: what the breaking iteration made of it (unchanged: its value when that iteration began, the
+					// convention in-loop returns use)
+					return exitVal(l, ex, lv.Obj), true
 				}
-				return l.Init[lv.Obj], true
+				if stable[lv.Obj] {
+					return l.Init[lv.Obj], true
+				}
+				return nil, false // exhausted, and the loop moves it: its final value stays symbolic
 			}
 			chosen := -1
 			for _, i := range g.after {
@@ -1454,6 +1456,36 @@ func (v *sxView) flagNorm(paths []*Path) []*Path {
 			q := clonePath(cur[i])
 			q.Steps[g.li[i]].Loop = &l2
 			repl[i] = q
+		}
+	}
+	// N5: a hand-written "does the text contain this ASCII character" scan —
+	//   flag := false; for _, ch := range text { if ch == K { flag = true } }
+	// — leaves strings.ContainsRune(text, K) in the flag; steps and results after the loop are rewritten with it
+	for i, p := range cur {
+		if drop[i] {
+			continue
+		}
+		for k, s := range p.Steps {
+			if s.Kind != "loop" || s.Loop == nil {
+				continue
+			}
+			flag, repl := v.existenceScan(s.Loop)
+			if flag == nil {
+				continue
+			}
+			id := s.Loop.ID
+			sub := func(t Term) (Term, bool) {
+				if lv, ok := t.(TLoop); ok && lv.ID == id && lv.Obj == flag {
+					return repl, true
+				}
+				return nil, false
+			}
+			q := clonePath(p)
+			tail := mapPath(&Path{Steps: q.Steps[k+1:], Vals: q.Vals}, sub)
+			q.Steps = append(q.Steps[:k:k], tail.Steps...) // the scan itself has no effect: dropped
+			q.Vals = tail.Vals
+			cur[i] = q
+			break
 		}
 	}
 	// N3: a boolean result that the conditions of its own path decide is that constant
@@ -2034,4 +2066,87 @@ func (v *sxView) collectNorm(paths []*Path) []*Path {
 		out[pi] = q
 	}
 	return out
+}
+
+var fakeStrings = types.NewPackage("strings", "strings")
+var fakeContainsRune = types.NewFunc(token.NoPos, fakeStrings, "ContainsRune", types.NewSignatureType(nil, nil, nil,
+	types.NewTuple(types.NewVar(token.NoPos, fakeStrings, "s", types.Typ[types.String]), types.NewVar(token.NoPos, fakeStrings, "r", types.Typ[types.Rune])),
+	types.NewTuple(types.NewVar(token.NoPos, fakeStrings, "", types.Typ[types.Bool])), false))
+
+// existenceScan recognises the quiet loop `for _, ch := range text { if ch == K { flag = true } }` (flag false before, K an ASCII
+// constant, nothing else in the body; leaving by break after the hit is fine) and returns the flag with the term it holds afterwards.
+func (v *sxView) existenceScan(l *LoopRec) (types.Object, Term) {
+	if l.Range == nil || l.Value == nil || !loopQuiet(l) {
+		return nil, nil
+	}
+	tt := v.c.termType(l.Over)
+	if tt == nil || !(isStringType(tt) || isByteSlice(tt)) {
+		return nil, nil
+	}
+	var flag types.Object
+	for o, init := range l.Init {
+		if b, ok := constBoolOf(simplify(init)); ok && !b && types.Identical(o.Type().Underlying(), types.Typ[types.Bool]) {
+			if flag != nil {
+				return nil, nil
+			}
+			flag = o
+		} else {
+			return nil, nil // another loop-carried variable: not a pure scan
+		}
+	}
+	if flag == nil || len(l.Iter) != 2 {
+		return nil, nil
+	}
+	var K Term
+	hit, miss := false, false
+	for _, ip := range l.Iter {
+		cs := ip.Conds()
+		if len(cs) != 1 || len(ip.Steps) != 1 {
+			return nil, nil
+		}
+		b, ok := cs[0].T.(TBin)
+		if !ok || (b.Op != token.EQL && b.Op != token.NEQ) {
+			return nil, nil
+		}
+		x, y := b.X, b.Y
+		if _, isC := x.(TConst); isC {
+			x, y = y, x
+		}
+		if cv, ok := x.(TConv); ok {
+			x = cv.X
+		}
+		k, isK := constInt(y)
+		if !isParamTerm(x, l.Value) || !isK || k < 0 || k >= 0x80 {
+			return nil, nil
+		}
+		if K != nil && !sameTerm(K, y) {
+			return nil, nil
+		}
+		K = y
+		matched := cs[0].Truth == (b.Op == token.EQL)
+		t, changed := ip.Env[flag]
+		if lv, same := t.(TLoop); same && lv.Obj == flag && lv.ID == l.ID {
+			changed = false
+		}
+		switch {
+		case matched:
+			if b, ok := constBoolOf(t); !changed || !ok || !b || (ip.End != "fall" && ip.End != "continue" && ip.End != "break") {
+				return nil, nil
+			}
+			hit = true
+		default:
+			if changed || (ip.End != "fall" && ip.End != "continue") {
+				return nil, nil
+			}
+			miss = true
+		}
+	}
+	if !hit || !miss {
+		return nil, nil
+	}
+	text := l.Over
+	if isByteSlice(tt) {
+		text = TConv{To: types.Typ[types.String], X: text}
+	}
+	return flag, TCall{Fun: fakeContainsRune, Name: "ContainsRune", Args: []Term{text, K}}
 }
